@@ -70,12 +70,15 @@ def run(chk):
     # GensView), and the generators prove / verify work with are party 0's window of the role's table (GensBound)
     for curve, n in (("toy31723", 150 if q else 2000), ("toy79", 150 if q else 2000)):
         vlib.session_traces(chk, curve, n, vlib.flags(G=1), "table-session", seed_off=50)
+    # ... and longer table-only lives on the 256-bit curves (values compared as encodings): up to 6 (10) operations, capacities to 16 (48), 0..3 (4) parties
+    for c in vlib.REAL_CURVES:
+        vlib.table_lives(chk, c, 40 if q else 400, 16 if q else 48, 3 if q else 4, 6 if q else 10, "table-life", seed_off=70)
     chk.finish(
         rule="TLC enumerates every history new(c0) ; (increase_capacity(c) | serialise+deserialise | clone)* with capacities <= %d, parties <= %d, <= %d "
              "operations, checks HistoryIndependent and ViewPartyMajor on the model, and prints each history with the expected capacity after every "
              "step and the expected content of every view G(n,m)/H(n,m), 0 <= n <= capacity, 0 <= m <= parties; each is executed on the real tables "
              "(secq256k1, zorro, curve25519, toy79) and compared entry by entry with a freshly built maximal table. Distinctness, non-identity, "
-             "prime order and the digests pinned from the reference revision are checked on tables of %d x %d. Recorded table lives of random sessions on toy31723 / toy79 are validated against Library.tla (one generator function per trace file). distinct = distinct (curve, history)"
+             "prime order and the digests pinned from the reference revision are checked on tables of %d x %d. Recorded table lives of random sessions on toy31723 / toy79, and longer table-only lives on secq256k1, zorro, curve25519, are validated against Library.tla (one generator function per trace file). distinct = distinct (curve, history)"
              % (mx[0], mx[1], mx[2], cap, parties),
         assumptions=["Chain(kind, party, i) is identified with entry i of a freshly built table of maximal capacity; its absolute value is pinned by digest",
                      "view preconditions n <= capacity, m <= party capacity"],
